@@ -168,16 +168,19 @@ def run_case(case):
         zs = np.array([complex(v.x, v.y) for v in r.vertices.values()])
         ext = max(zs.real.max() - zs.real.min(), zs.imag.max() - zs.imag.min())
         size = int(rng.integers(120, 260))
+        # non-square images (rows x columns): extra rows or columns beyond the tissue
+        shape = (size + int(rng.integers(0, 90)), size) if rng.random() < 0.5 else (size, size + int(rng.integers(0, 90)))
         margin = layers + 4
         sc = (size - 2 * margin - 2) / ext * float(rng.uniform(0.5, 1.0))
         rescale = [sc, sc * float(rng.uniform(0.8, 1.0))]
-        offset = [margin + 1 - zs.real.min() * rescale[0] + float(rng.uniform(0, 3)),
-                  margin + 1 - zs.imag.min() * rescale[1] + float(rng.uniform(0, 3))]
+        # the tissue may sit anywhere along the longer side (x = column, y = row): positions beyond the short side occur
+        offset = [margin + 1 - zs.real.min() * rescale[0] + float(rng.uniform(0, 3 + (shape[1] - size))),
+                  margin + 1 - zs.imag.min() * rescale[1] + float(rng.uniform(0, 3 + (shape[0] - size)))]
         mode = ["F", "L"][int(rng.integers(2))]
         if mode == "F":
-            arr = rng.uniform(0, 10, (size, size)).astype(np.float32)
+            arr = rng.uniform(0, 10, shape).astype(np.float32)
         else:
-            arr = rng.integers(0, 256, (size, size)).astype(np.uint8)
+            arr = rng.integers(0, 256, shape).astype(np.uint8)
         img = Image.fromarray(arr, mode=mode)
         integrate = bool(rng.integers(2))
         normalize = [None, "average"][int(rng.integers(2))]
@@ -215,7 +218,7 @@ def run_case(case):
             b0 = call(img, arr, edges_, integrate, None)
             alpha = float(rng.uniform(0.2, 3.0))
             if mode == "F":
-                arr2 = rng.uniform(0, 10, (size, size)).astype(np.float32)
+                arr2 = rng.uniform(0, 10, shape).astype(np.float32)
                 a_s = (arr * np.float32(alpha)).astype(np.float32)
                 a_sum = (arr + arr2).astype(np.float32)
                 b_s = call(Image.fromarray(a_s, mode="F"), a_s, edges_, integrate, None)
@@ -232,7 +235,7 @@ def run_case(case):
                 mon.count("linearity:checked")
             # uniform image -> equal values (non-integrated statistic)
             val = float(rng.uniform(1, 9)) if mode == "F" else int(rng.integers(1, 255))
-            au = np.full((size, size), val, dtype=arr.dtype)
+            au = np.full(shape, val, dtype=arr.dtype)
             bu = call(Image.fromarray(au, mode=mode), au, edges_, False, None)
             if bu is not None:
                 mon.count("uniform:checked")
